@@ -506,14 +506,19 @@ def _r3(chk, repo):
                    "conditioning the factor — _add_constants_to_density would then write into the original", cond)
         order_ok = True
     # the reduce happens on the copy, after the replacement (decided on the structural view: statement order of the top-level body)
+    # (flow graph of the structural view: one value return, the reduction of the copy, and every path to it passes a store into the copy's factor list;
+    # refusals in front of the copy do not matter)
     v = canon_fn(repo, J, cond, 4)
-    body = v.body
-    rets = [s_ for s_ in body if isinstance(s_, ast.Return)]
-    idx_ret = body.index(rets[0]) if len(rets) == 1 else -1
-    idx_fill = max([i for i, s_ in enumerate(body) if any(isinstance(x, (ast.Attribute,)) and x.attr == "_densities" and isinstance(getattr(x, "ctx", None), ast.Store)
-                                                          or (isinstance(x, ast.Subscript) and isinstance(x.ctx, ast.Store) and path_of(x.value) == f"{nj}._densities")
-                                                          for x in ast.walk(s_))] or [-1])
-    ok_ret = len(rets) == 1 and pn(rets[0].value) == f"{nj}._reduce_to_single_density()" and idx_fill != -1 and idx_fill < idx_ret
+    gv = CFG(v)
+    rets = [n for n in gv.returns() if n.ast.value is not None]
+
+    def fills(n):
+        return n.ast is not None and n.kind == "stmt" and isinstance(n.ast, (ast.Assign, ast.AugAssign)) and any(
+            (isinstance(x, ast.Attribute) and x.attr == "_densities" and isinstance(getattr(x, "ctx", None), ast.Store) and path_of(x.value) == nj)
+            or (isinstance(x, ast.Subscript) and isinstance(x.ctx, ast.Store) and path_of(x.value) == f"{nj}._densities")
+            for t_ in (n.ast.targets if isinstance(n.ast, ast.Assign) else [n.ast.target]) for x in ast.walk(t_))
+    ok_ret = len(rets) == 1 and pn(rets[0].ast.value) == f"{nj}._reduce_to_single_density()" and gv.must_pass(rets[0], fills)
+    rets = [r_.ast for r_ in rets]
     chk.decide("C11-R3", inst + "/order", ok_ret, len(rets) >= 1, site(repo, rets[0] if rets else cond), "copy -> replace -> reduce, in this order",
                "reduction is not applied to the copy after the replacement", cond)
     # callers of _reduce_to_single_density and of _add_constants_to_density
